@@ -214,6 +214,40 @@ CHECKS = {
              "as matrix cells.",
         technique="Lean 4 proof (lens / aliasing laws of a value-tree heap) + differential correspondence against a shadow heap on generated operation histories",
         ref="DESIGN.md §6 C07"),
+    "C11": dict(
+        text="Lean 4 theorems (CbProps/C11.lean) on the instantiation cache and its key (CbModel/Generic.lean, mirroring "
+             "generate_cache_key and the lookup-or-instantiate call site): keyL_injective (two uses get the same key only if "
+             "they name the same generic function at the same type-argument tuple, for all names without '<' and all "
+             "bracket-balanced type arguments — f<int,long> vs f<long,int>, one argument Pair<int,long> vs two arguments); "
+             "cache_transparent (in every history of generic calls each call executes exactly what a fresh instantiation at "
+             "its own arguments gives); second_use_hits. Obligations (decide) on tables regenerated from the C++ on every "
+             "run: the key format is the modelled one; clone_ast_node copies, and substitute_type_parameters visits, every "
+             "child-node field of struct ASTNode (ast.h). Tie (metamorphic): S1 random core programs whose functions are made "
+             "generic mechanically vs the original program (= hand-specialised twin) on the implementation, the twin also vs "
+             "CbRef; S2 14 generic function templates + generic structs instantiated at random tuples over {tiny, short, int, "
+             "long, bool, char, string, struct}, swapped tuples, repeated uses, shuffled orders vs the monomorphised twin.",
+        note="No theorem states 'generic program = monomorphised program' for a semantics of generic programs (CbRef has no "
+             "generics; the statement would be definitional): that part of the property is carried by the metamorphic tie. "
+             "The cache is currently disabled in call_impl.cpp (every call instantiates afresh); the theorems show that "
+             "enabling it cannot change behaviour as long as the key obligations hold. 3 listed findings (T[N] locals, >> in "
+             "generic bodies, statics shared between instantiations). Generic enums/impls only via Option/Result (C13).",
+        technique="Lean 4 proof (cache-key injectivity, cache transparency) + translator-regenerated tables with decide obligations + metamorphic correspondence (generic vs hand-specialised twin, twin vs CbRef)",
+        ref="DESIGN.md §6 C11, §11"),
+    "C18": dict(
+        text="Lean 4 theorems (CbProps/C18.lean) on a mechanism model of handle_import_statement (CbModel/Imports.lean: set of "
+             "loaded module paths + one global table, importing an unloaded module registers exactly its exported items, later "
+             "registrations overwrite): import_exact (after an import a name resolves to the module's export of that name if it "
+             "has one, else to what it resolved to before), hidden_not_visible, import_idempotent, lookup_after_imports (after "
+             "ANY import list from the initial state a name resolves to b iff an imported module exports it as b), "
+             "imports_order_and_repetition_irrelevant. Tie: generated module sets (<= 5 modules in nested directories, "
+             "functions with statics, constants, struct+interface+impl, enums, typedefs, each exported or hidden; chains and "
+             "diamonds): the program using every item the model says is visible must print what the single-file inlined "
+             "program prints, for 3 orders / duplications of the import list; every item the model says is invisible must be "
+             "rejected.",
+        note="Names are unique across modules (DisjointExports hypothesis). Selective imports and aliases are not generated. "
+             "Listed finding: a module's own imports are not processed (transitive imports).",
+        technique="Lean 4 proof (mechanism model of the import table) + differential correspondence on generated module graphs (model decides visibility, the inlined single-file program is the output oracle)",
+        ref="DESIGN.md §6 C18, §11"),
     "C13": dict(
         text="Lean 4 theorems (CbProps/C13.lean) on the decision logic (CbModel/EnumM.lean): match selects arm i iff pattern i "
              "applies and no earlier one does; no applicable arm = no arm selected (error); a wildcard makes the match total; "
